@@ -25,10 +25,11 @@ type Program struct {
 	Workers   int              `json:"workers"`
 	InCh      int              `json:"inch"`
 	Producers map[string][]Sub `json:"producers"`
-	Api       []string         `json:"api"`                // API callers: reset | resetall | token | tokenreset | event
-	Shutdown  bool             `json:"shutdown"`           // a Shutdown goroutine exists
-	Cycles    int              `json:"cycles"`             // number of Serve/Shutdown cycles (>=1)
-	Overtake  bool             `json:"overtake,omitempty"` // restart as soon as Shutdown has returned, without waiting for the previous Serve call to return
+	Api       []string         `json:"api"`                   // API callers: reset | resetall | token | tokenreset | event
+	Shutdown  bool             `json:"shutdown"`              // a Shutdown goroutine exists
+	Cycles    int              `json:"cycles"`                // number of Serve/Shutdown cycles (>=1)
+	SdDelayUs int              `json:"sd_delay_us,omitempty"` // free-running runs: when the scheduled Shutdown is called (0: within 400us)
+	Overtake  bool             `json:"overtake,omitempty"`    // restart as soon as Shutdown has returned, without waiting for the previous Serve call to return
 }
 
 // Violation found by a monitor.
@@ -232,7 +233,9 @@ func (sc *Scenario) submit(cb string, sub Sub) {
 			sc.tr.Log("delivered", cb)
 		}
 	case "nomatch":
-		if err := sc.svc.With("test.nothing.here.at.all", func(res.Resource) { sc.body(cb, "nomatch") }); err == nil {
+		// resource ids no handler matches: an unknown name, and names that merely start with the service name
+		rid := []string{"test.nothing.here.at.all", "testr.a", "test-q.b", "tes.r.a", "testpar.c", "test"}[len(cb)%6]
+		if err := sc.svc.With(rid, func(res.Resource) { sc.body(cb, "nomatch") }); err == nil {
 			sc.violate("C02", "with-no-error", "With on a resource id without handler returned nil", nil)
 		}
 	}
